@@ -19,10 +19,10 @@ tvars == <<mvars, row, bad>>
 Blank == [kind |-> "assign", heap0 |-> <<>>, flags |-> <<>>, root |-> VNone, steps |-> <<>>,
           val |-> [k |-> "lit", v |-> VNone, steps |-> <<>>], missing |-> "none", facfail |-> 0, ignore |-> FALSE]
 Idle == [case |-> Blank, pc |-> "idle", heap |-> <<>>, cur |-> VNone, idx |-> 0, val |-> VNone,
-         stk |-> <<>>, nfac |-> 0, log |-> <<>>, out |-> NoOut, queue |-> <<>>]
+         stk |-> <<>>, nfac |-> 0, log |-> <<>>, out |-> NoOut, queue |-> <<>>, memo |-> 0]
 
 Init == case = Blank /\ pc = "idle" /\ heap = <<>> /\ cur = VNone /\ idx = 0
-        /\ val = VNone /\ stk = <<>> /\ nfac = 0 /\ log = <<>> /\ out = NoOut /\ queue = <<>> /\ row = 1 /\ bad = ""
+        /\ val = VNone /\ stk = <<>> /\ nfac = 0 /\ log = <<>> /\ out = NoOut /\ queue = <<>> /\ memo = 0 /\ row = 1 /\ bad = ""
 
 Obs == Rows[row].obs
 
